@@ -371,7 +371,7 @@ theorem translated_simd_buffering_text_same_as_software :
 theorem translated_simd_buffering_text_covers :
     Gen.SimdText.same_as_software.map Prod.fst =
       ["increment_counter", "init", "update", "finalize", "hash", "longhash", "set_lastnode", "is_lastblock", "set_lastblock",
-       "init_param", "init0"] :=
+       "init_param", "init0", "consts", "struct_Params", "default_Params", "IV", "struct_State"] :=
   Proofs.GenSimdText.simd_buffering_text_covers
 
 end DryocVerif.Properties.C18
